@@ -168,8 +168,9 @@ def judge_model(ctx, case, resp):
             ctx.classes["out:literal-not-reproduced"] += 1     # the FEEL text of the value does not evaluate to it: not this property's subject
             continue
         want, rule, onotes = IR.coerced(tree, v)
-        for who in ("Id", "Out %d" % i, "Svc %d" % i) + (("Multi",) if multi == i else ()):
-            kind = {"I": "bkm", "O": "decision", "S": "service", "M": "multi-output-service"}[who[0]]
+        for who in ("Id", "Out %d" % i, "Svc %d" % i, "Inv %d" % i, "Call %d" % i) + (("Multi",) if multi == i else ()):
+            kind = {"Id": "bkm", "Ou": "decision", "Sv": "service", "Mu": "multi-output-service", "In": "bkm-by-boxed-invocation",
+                    "Ca": "bkm-by-literal-call"}[who[:2]]
             got = result(who, i)
             labels = ["out:" + kind, "out-rule:" + rule, "out:" + m] + ["out-note:" + n for n in sorted(onotes)]
             f = None
